@@ -34,6 +34,7 @@ def run(sc):
     if sc.get('tier') != 'thorough': days = days[:2]
     exprs = ['* * * * *', '*/5 * * * *', '0 2 * * *', '30 1-3 * * *', '15,45 */6 * * *', '0 0 29 3 *', '7 3 * * 0', '59 23 * 10-11 *']
     offsets = [None, _dt.timedelta(hours=2), _dt.timedelta(hours=-26, minutes=1), 'Europe/Berlin', 'America/New_York', 'Asia/Kathmandu', 'Australia/Lord_Howe']
+    TASKS = {(ex, str(off)): ScheduledTask(task_name='t', labels={}, args=[], kwargs={}, cron=ex, cron_offset=off, time=None, schedule_id='s') for ex in exprs for off in offsets}          # built through the model's validators, as every schedule source does
     fails = []; n = 0
     for day in days:
         base = _dt.datetime(day.year, day.month, day.day, tzinfo=_dt.timezone.utc) - _dt.timedelta(hours=6)
@@ -46,7 +47,7 @@ def run(sc):
                     else: wall = now.astimezone(zoneinfo.ZoneInfo(off))
                     for ex in exprs:
                         n += 1
-                        task = ScheduledTask.model_construct(task_name='t', labels={}, args=[], kwargs={}, cron=ex, cron_offset=off, time=None, schedule_id='s')
+                        task = TASKS[(ex, str(off))]
                         got = run_mod.get_task_delay(task); want = 0 if cron_matches(ex, wall) else None
                         if got != want and len(fails) < 40:
                             fails.append({'key': f"{ex} @ {now.isoformat()} offset={off}", 'failed_clauses': [f"C13: cron {ex!r} at {now.isoformat()} with offset {off!r} (wall clock {wall.isoformat()}): get_task_delay -> {got!r}, expected {want!r}"]})
